@@ -41,7 +41,7 @@ enum { ES_free = 0, ES_inactive = 1, ES_active = 2 };
 struct node { struct node* next; uint64_t construction_era, retirement_era;
               /* ghost */ uintptr_t addr; unsigned deleted; int deleter; };
 struct slot { uintptr_t value; uint64_t guard_cnt; };
-struct tcb { struct tcb* next_entry; int state; union { struct slot pointers[XV_K]; struct slot eras[XV_K]; }; };
+struct tcb { struct tcb* next_entry; int state; struct slot pointers[XV_K]; };   /* HE: the array member `eras` is renamed to pointers by the unit */
 struct tbl { struct tcb* head; struct node* abandoned_retired_nodes; };
 struct tbl_iter { struct tcb* ptr; };
 struct td { struct node* retire_list; size_t number_of_retired_nodes; struct slot* hint; struct tcb* control_block; };
@@ -50,7 +50,14 @@ struct guard { struct node* ptr; struct slot* hp; };
 static const struct tbl_iter xv_no_iter = {0};
 static struct tbl_iter XV_MAKE_ITER(struct tcb* p) { struct tbl_iter it; it.ptr = p; return it; }
 
-struct tcb epool[XV_E]; struct node npool[NN];
+/* every node and every entry is an object of its own (not an array element): cbmc then resolves each pointer to a small set of
+ * objects with constant offsets and keeps the formula small */
+struct node nd0, nd1, nd2, nd3, nd4, nd5, nd6, nd7, nd8, nd9; struct tcb te0, te1, te2, te3, te4;
+static struct node* NODE(unsigned i) { struct node* r = (struct node*)0;
+  if (i == 0) r = &nd0; if (i == 1) r = &nd1; if (i == 2) r = &nd2; if (i == 3) r = &nd3; if (i == 4) r = &nd4; if (i == 5) r = &nd5; if (i == 6) r = &nd6; if (i == 7) r = &nd7; if (i == 8) r = &nd8; if (i == 9) r = &nd9; return r; }
+static struct tcb* ENTRY(unsigned k) { struct tcb* r = (struct tcb*)0; if (k == 0) r = &te0; if (k == 1) r = &te1; if (k == 2) r = &te2; if (k == 3) r = &te3; if (k == 4) r = &te4; return r; }
+#define npool(j) (*NODE(j))
+#define epool(k) (*ENTRY(k))
 struct tbl global_thread_block_list; struct td local_thread_data;
 size_t number_of_active_hps; uint64_t era_clock;
 #define number_of_active_hes number_of_active_hps
@@ -69,7 +76,8 @@ static void vec_push_back(struct vec* v, uintptr_t x) { if (v->n >= VCAP) { g_mo
 #define VEC_begin(v) (&(v).data[0])
 #define VEC_end(v) (&(v).data[(v).n])
 typedef const uintptr_t* cit;
-static _Bool range_sorted(cit b, cit e) { for (unsigned i = 0; i + 1 < VCAP; i++) if (b + i + 1 < e && b[i] > b[i + 1]) return 0; return 1; }
+/* all stubs turn the iterator pair into (base pointer, length) once and then work with integer indices */
+static _Bool range_sorted(cit b, size_t n) { for (unsigned i = 0; i + 1 < VCAP; i++) if (i + 1 < n && b[i] > b[i + 1]) return 0; return 1; }
 static void STD_sort(uintptr_t* b, uintptr_t* e) {        /* result: the sorted permutation (unique as a sequence of values) */
   size_t n = e - b;
   for (unsigned p = 0; p + 1 < VCAP; p++) for (unsigned i = 0; i + 1 < VCAP - p; i++)
@@ -77,15 +85,17 @@ static void STD_sort(uintptr_t* b, uintptr_t* e) {        /* result: the sorted 
 }
 unsigned g_search_unsorted;
 static _Bool xv_binary_search(cit b, cit e, uintptr_t key) {   /* sorted range: result <=> key in [b,e); otherwise unspecified */
-  if (!range_sorted(b, e)) { g_search_unsorted++; return nondet_bool(); }
-  _Bool found = 0; for (unsigned i = 0; i < VCAP; i++) if (b + i < e && b[i] == key) found = 1;
+  size_t n = e - b;
+  if (!range_sorted(b, n)) { g_search_unsorted++; return nondet_bool(); }
+  _Bool found = 0; for (unsigned i = 0; i < VCAP; i++) if (i < n && b[i] == key) found = 1;
   return found;
 }
 #define STD_binary_search(b, e, k) xv_binary_search((b), (e), (k)->addr)
 static cit STD_lower_bound(cit b, cit e, uint64_t key) {       /* sorted range: first element >= key, or e */
-  if (!range_sorted(b, e)) { g_search_unsorted++; unsigned k = nondet_uint(); XV_ASSUME(k <= (unsigned)(e - b)); return b + k; }
-  cit r = e; for (unsigned i = VCAP; i-- > 0;) if (b + i < e && b[i] >= key) r = b + i;
-  return r;
+  size_t n = e - b;
+  if (!range_sorted(b, n)) { g_search_unsorted++; size_t k = nondet_size(); XV_ASSUME(k <= n); return b + k; }
+  size_t r = n; for (unsigned i = VCAP; i-- > 0;) if (i < n && b[i] >= key) r = i;
+  return b + r;
 }
 static uintptr_t* STD_unique(uintptr_t* b, uintptr_t* e) {     /* removes consecutive duplicates, returns the new end; the tail is unspecified */
   size_t n = e - b; size_t w = 0;
@@ -105,8 +115,8 @@ struct node *g_ab_cas_d, *g_ab_cas_e;
 static void mon_load(void* addr, uint64_t v, int o) {
   if (addr == (void*)&global_thread_block_list.head) { g_head_clock = xv_clock; g_head_order = o; }
   for (unsigned k = 0; k < XV_E; k++) {
-    if (addr == (void*)&epool[k].state) { g_state_reads[k]++; g_seen_active[k] = ((int)v == ES_active); if (!g_first_state_clock) g_first_state_clock = xv_clock; }
-    for (unsigned i = 0; i < XV_K; i++) if (addr == (void*)&epool[k].pointers[i].value) {
+    if (addr == (void*)&epool(k).state) { g_state_reads[k]++; g_seen_active[k] = ((int)v == ES_active); if (!g_first_state_clock) g_first_state_clock = xv_clock; }
+    for (unsigned i = 0; i < XV_K; i++) if (addr == (void*)&epool(k).pointers[i].value) {
       g_slot_reads[k][i]++; if (!g_first_slot_clock) g_first_slot_clock = xv_clock;
       if (g_seen_active[k] && MP_mark(v) == 0 && g_ng < VCAP) {
 #ifdef XV_HE
@@ -120,7 +130,7 @@ static void mon_load(void* addr, uint64_t v, int o) {
 }
 static void mon_fence(int o) { if (o == mo_seq_cst && !g_fence_clock) g_fence_clock = xv_clock; }
 static void mon_store(void* addr, uint64_t v, int o) {
-  for (unsigned k = 0; k < XV_E; k++) if (addr == (void*)&epool[k].state) { g_state_store_n++; g_state_store_k = k; g_state_store_o = o; g_state_store_v = (int)v; }
+  for (unsigned k = 0; k < XV_E; k++) if (addr == (void*)&epool(k).state) { g_state_store_n++; g_state_store_k = k; g_state_store_o = o; g_state_store_v = (int)v; }
   if (addr == (void*)&global_thread_block_list.abandoned_retired_nodes) g_ab_store_n++;
 }
 static void mon_cas(void* addr, uint64_t e, uint64_t d, _Bool ok, int o) {
@@ -133,6 +143,8 @@ static void mon_rmw(void* addr, uint64_t oldv, uint64_t newv, int o) {
 static _Bool gath_contains(uintptr_t w) { for (unsigned i = 0; i < VCAP; i++) if (i < g_ng && g_gath[i] == w) return 1; return 0; }
 static _Bool gath_in_interval(uint64_t lo, uint64_t hi) { for (unsigned i = 0; i < VCAP; i++) if (i < g_ng && g_gath[i] >= lo && g_gath[i] <= hi) return 1; return 0; }
 
+/* a nondeterministic node pointer as a choice between constant-index addresses (keeps cbmc's dereferencing field-sensitive) */
+static struct node* nondet_node(void) { unsigned k = nondet_uint(); return k < NN ? NODE(k) : (struct node*)0; }
 /* ---- contract stub of the virtual delete_self (unit rlist) + the reclaim-side C01 obligation ---- */
 _Bool g_double_delete; unsigned g_deletes; uint64_t g_first_delete_clock;
 static void n_delete_self(struct node* n) {
@@ -143,7 +155,7 @@ static void n_delete_self(struct node* n) {
 #endif
   if (n->deleted != 0) g_double_delete = 1;
   n->deleted++; g_deletes++; if (!g_first_delete_clock) g_first_delete_clock = xv_clock + 1;
-  { unsigned k = nondet_uint(); n->next = k < NN ? &npool[k] : (struct node*)0; }     /* freed memory */
+  n->next = nondet_node();     /* freed memory */
 }
 #define N_delete_self(n) n_delete_self(&(n))
 
@@ -186,12 +198,12 @@ static void td_scan_stub(struct td* t) { t_scan_n++; t_scan_seq = ++t_seq; t_cou
 #include "lowered.h"
 
 /* =============================== state =============================== */
-/* inputs (in_*): list of in_ne entries epool[0..ne-1] (WLOG in pool order: entry addresses are never compared), their states and slot
- * words; the thread's retire list npool[0..nl-1] (in this order), the global abandoned list npool[L..L+na-1]; node address words */
+/* inputs (in_*): list of in_ne entries epool(0..ne-1) (WLOG in pool order: entry addresses are never compared), their states and slot
+ * words; the thread's retire list npool(0..nl-1) (in this order), the global abandoned list npool(L..L+na-1); node address words */
 unsigned in_ne, in_nl, in_na; int in_state[XV_E]; uintptr_t in_slot[XV_E][XV_K]; uintptr_t in_addr[NN]; uint64_t in_cera[NN], in_rera[NN]; unsigned in_cb;
-static struct node* own(unsigned i) { return &npool[i]; }
-static struct node* adopted(unsigned i) { return &npool[XV_L + i]; }
-#define OUTSIDE (&npool[XV_L + XV_LA])
+static struct node* own(unsigned i) { return NODE(i); }
+static struct node* adopted(unsigned i) { return NODE(XV_L + i); }
+#define OUTSIDE (NODE(XV_L + XV_LA))
 static _Bool is_own(unsigned j) { return j < in_nl; }
 static _Bool is_adopted(unsigned j) { return j >= XV_L && j < XV_L + in_na; }
 static void reset_ghost(void) {
@@ -204,24 +216,24 @@ static void havoc_state(void) {
   in_ne = nondet_uint(); in_nl = nondet_uint(); in_na = nondet_uint(); XV_ASSUME(in_ne <= XV_E && in_nl <= XV_L && in_na <= XV_LA);
   for (unsigned k = 0; k < XV_E; k++) {
     in_state[k] = nondet_int(); XV_ASSUME(in_state[k] >= ES_free && in_state[k] <= ES_active);
-    epool[k].state = in_state[k]; epool[k].next_entry = (k + 1 < in_ne) ? &epool[k + 1] : (struct tcb*)0;
-    for (unsigned i = 0; i < XV_K; i++) { in_slot[k][i] = nondet_uptr(); epool[k].pointers[i].value = in_slot[k][i]; epool[k].pointers[i].guard_cnt = nondet_u64(); }
+    epool(k).state = in_state[k]; epool(k).next_entry = (k + 1 < in_ne) ? ENTRY(k + 1) : (struct tcb*)0;
+    for (unsigned i = 0; i < XV_K; i++) { in_slot[k][i] = nondet_uptr(); epool(k).pointers[i].value = in_slot[k][i]; epool(k).pointers[i].guard_cnt = nondet_u64(); }
   }
-  global_thread_block_list.head = in_ne ? &epool[0] : (struct tcb*)0;
+  global_thread_block_list.head = in_ne ? ENTRY(0) : (struct tcb*)0;
   for (unsigned j = 0; j < NN; j++) {
     in_addr[j] = nondet_uptr(); XV_ASSUME(in_addr[j] != 0 && (in_addr[j] & MARK_BIT) == 0);
     for (unsigned i = 0; i < j; i++) XV_ASSUME(in_addr[i] != in_addr[j]);
     in_cera[j] = nondet_u64(); in_rera[j] = nondet_u64(); XV_ASSUME(in_cera[j] >= 1 && in_cera[j] <= in_rera[j] && in_rera[j] < ((uint64_t)1 << 62));
-    npool[j].addr = in_addr[j]; npool[j].construction_era = in_cera[j]; npool[j].retirement_era = in_rera[j];
-    npool[j].deleted = 0; npool[j].deleter = nondet_int();
-    { unsigned k = nondet_uint(); npool[j].next = k < NN ? &npool[k] : (struct node*)0; }
+    npool(j).addr = in_addr[j]; npool(j).construction_era = in_cera[j]; npool(j).retirement_era = in_rera[j];
+    npool(j).deleted = 0; npool(j).deleter = nondet_int();
+    npool(j).next = nondet_node();
   }
-  for (unsigned i = 0; i < XV_L; i++) if (i < in_nl) npool[i].next = (i + 1 < in_nl) ? &npool[i + 1] : (struct node*)0;
-  for (unsigned i = 0; i < XV_LA; i++) if (i < in_na) npool[XV_L + i].next = (i + 1 < in_na) ? &npool[XV_L + i + 1] : (struct node*)0;
+  for (unsigned i = 0; i < XV_L; i++) if (i < in_nl) npool(i).next = (i + 1 < in_nl) ? NODE(i + 1) : (struct node*)0;
+  for (unsigned i = 0; i < XV_LA; i++) if (i < in_na) npool(XV_L + i).next = (i + 1 < in_na) ? NODE(XV_L + i + 1) : (struct node*)0;
   global_thread_block_list.abandoned_retired_nodes = in_na ? adopted(0) : (struct node*)0;
   local_thread_data.retire_list = in_nl ? own(0) : (struct node*)0;
   local_thread_data.number_of_retired_nodes = in_nl;                 /* invariant: counter == length of the retire list */
-  in_cb = nondet_uint(); local_thread_data.control_block = in_cb < in_ne ? &epool[in_cb] : (struct tcb*)0;
+  in_cb = nondet_uint(); local_thread_data.control_block = (struct tcb*)0; for (unsigned k = 0; k < XV_E; k++) if (k == in_cb && k < in_ne) local_thread_data.control_block = ENTRY(k);
   if (in_cb < in_ne) XV_ASSUME(in_state[in_cb] == ES_active);       /* the own control block is active */
   local_thread_data.hint = (struct slot*)0;
   number_of_active_hps = nondet_size(); era_clock = nondet_u64();
@@ -263,7 +275,7 @@ static void check_order_obligations(void) {
   XV_MODEL_ASSERT("vector capacity", !g_model_overflow);
 }
 static void check_gather_complete(void) {
-  unsigned k = nondet_uint(), i = nondet_uint(); XV_ASSUME(k < in_ne && i < XV_K);
+  unsigned k = nondet_uint(), i = nondet_uint(); if (!(k < in_ne && i < XV_K)) return;
   /* every slot of an entry that was seen active was read (after that look) */
   XV_OBL("hpscan.gather.all_slots", g_state_reads[k] >= 1 && (!g_seen_active[k] || g_slot_reads[k][i] >= 1) && XV_IS_ACQUIRE(g_head_order));
 }
@@ -275,15 +287,15 @@ void h_scan(void) {
   struct tcb* cb0 = local_thread_data.control_block;
   SCAN(&local_thread_data);
   check_order_obligations(); check_gather_complete();
-  _Bool wf; unsigned len = chain_len(local_thread_data.retire_list, &wf); unsigned o = occ(local_thread_data.retire_list, &npool[j]);
+  _Bool wf; unsigned len = chain_len(local_thread_data.retire_list, &wf); unsigned o = occ(local_thread_data.retire_list, NODE(j));
   XV_OBL(OBL_CONSERVE, wf && local_thread_data.number_of_retired_nodes == len && !g_double_delete);
   XV_OBL(OBL_CONSERVE, global_thread_block_list.abandoned_retired_nodes == 0 && local_thread_data.control_block == cb0 && g_state_store_n == 0);
   if (is_own(j) || is_adopted(j)) {
-    XV_OBL(OBL_CONSERVE, (npool[j].deleted == 1 && o == 0) || (npool[j].deleted == 0 && o == 1));
-    if (PROTECTED(j)) { XV_OBL(OBL_SPARES, npool[j].deleted == 0 && o == 1); if (is_own(j)) XV_CANARY("scan.own_spared"); else XV_CANARY("scan.adopted_spared"); }
-    else { XV_OBL("hpscan.skips_inactive", npool[j].deleted == 1 && o == 0); if (is_own(j)) XV_CANARY("scan.own_deleted"); else XV_CANARY("scan.adopted_deleted"); }
+    XV_OBL(OBL_CONSERVE, (npool(j).deleted == 1 && o == 0) || (npool(j).deleted == 0 && o == 1));
+    if (PROTECTED(j)) { XV_OBL(OBL_SPARES, npool(j).deleted == 0 && o == 1); if (is_own(j)) XV_CANARY("scan.own_spared"); else XV_CANARY("scan.adopted_spared"); }
+    else { XV_OBL("hpscan.skips_inactive", npool(j).deleted == 1 && o == 0); if (is_own(j)) XV_CANARY("scan.own_deleted"); else XV_CANARY("scan.adopted_deleted"); }
   } else {
-    XV_OBL(OBL_CONSERVE, npool[j].deleted == 0 && o == 0);
+    XV_OBL(OBL_CONSERVE, npool(j).deleted == 0 && o == 0);
     XV_CANARY("scan.outside");
   }
   /* C17: a node whose only "protection" is in a non-active entry is reclaimed */
@@ -303,8 +315,8 @@ _Bool env_on;
 void xv_env(void) {          /* other threads: any slot word, any entry state, at any time */
   if (!env_on) return;
   for (unsigned k = 0; k < XV_E; k++) {
-    if (nondet_bool()) { epool[k].state = nondet_int(); XV_ASSUME(epool[k].state >= ES_free && epool[k].state <= ES_active); }
-    for (unsigned i = 0; i < XV_K; i++) if (nondet_bool()) epool[k].pointers[i].value = nondet_uptr();
+    if (nondet_bool()) { epool(k).state = nondet_int(); XV_ASSUME(epool(k).state >= ES_free && epool(k).state <= ES_active); }
+    for (unsigned i = 0; i < XV_K; i++) if (nondet_bool()) epool(k).pointers[i].value = nondet_uptr();
   }
 }
 #endif
@@ -316,18 +328,18 @@ void h_scan_int(void) {
   SCAN(&local_thread_data);
   env_on = 0;
   check_order_obligations(); check_gather_complete();
-  _Bool wf; unsigned len = chain_len(local_thread_data.retire_list, &wf); unsigned o = occ(local_thread_data.retire_list, &npool[j]);
+  _Bool wf; unsigned len = chain_len(local_thread_data.retire_list, &wf); unsigned o = occ(local_thread_data.retire_list, NODE(j));
   XV_OBL(OBL_CONSERVE, wf && local_thread_data.number_of_retired_nodes == len && !g_double_delete);
   if (is_own(j) || is_adopted(j)) {
-    XV_OBL(OBL_CONSERVE, (npool[j].deleted == 1 && o == 0) || (npool[j].deleted == 0 && o == 1));
+    XV_OBL(OBL_CONSERVE, (npool(j).deleted == 1 && o == 0) || (npool(j).deleted == 0 && o == 1));
     /* what was read decides: deleted => not in the set of words read from entries seen active (checked at every delete_self); kept => it is in that set */
 #ifdef XV_HE
-    if (npool[j].deleted == 0) XV_OBL("hpscan.skips_inactive", gath_in_interval(in_cera[j], in_rera[j]));
+    if (npool(j).deleted == 0) XV_OBL("hpscan.skips_inactive", gath_in_interval(in_cera[j], in_rera[j]));
 #else
-    if (npool[j].deleted == 0) XV_OBL("hpscan.skips_inactive", gath_contains(in_addr[j]));
+    if (npool(j).deleted == 0) XV_OBL("hpscan.skips_inactive", gath_contains(in_addr[j]));
 #endif
-    if (npool[j].deleted) XV_CANARY("scan_int.deleted"); else XV_CANARY("scan_int.spared");
-  } else XV_OBL(OBL_CONSERVE, npool[j].deleted == 0 && o == 0);
+    if (npool(j).deleted) XV_CANARY("scan_int.deleted"); else XV_CANARY("scan_int.spared");
+  } else XV_OBL(OBL_CONSERVE, npool(j).deleted == 0 && o == 0);
 #endif
 }
 
@@ -340,16 +352,16 @@ void h_dtor(void) {
   DTOR(&local_thread_data);
   XV_OBL("hpscan.search_sorted", g_search_unsorted == 0); XV_MODEL_ASSERT("vector capacity", !g_model_overflow);
   struct node* ab = global_thread_block_list.abandoned_retired_nodes;
-  _Bool wf; unsigned len = chain_len(ab, &wf); unsigned o = occ(ab, &npool[j]);
+  _Bool wf; unsigned len = chain_len(ab, &wf); unsigned o = occ(ab, NODE(j));
   XV_OBL("hpscan.dtor.hands_over_all", local_thread_data.retire_list == 0 && local_thread_data.control_block == 0 && wf && !g_double_delete);
   if (had_list) {
     XV_OBL("hpscan.fence_first", g_fence_clock != 0 && (g_first_slot_clock == 0 || g_fence_clock < g_first_slot_clock));
     if (is_own(j) || is_adopted(j)) {
-      XV_OBL("hpscan.dtor.hands_over_all", (npool[j].deleted == 1 && o == 0) || (npool[j].deleted == 0 && o == 1));
-      XV_OBL(OBL_SPARES, !PROTECTED(j) || npool[j].deleted == 0);
-      XV_OBL("hpscan.skips_inactive", PROTECTED(j) || npool[j].deleted == 1);
-      if (npool[j].deleted == 0) { XV_OBL("hpscan.dtor.hands_over_all", g_ab_cas_ok_n == 1 && XV_IS_RELEASE(g_ab_cas_o)); XV_CANARY("dtor.handed_over"); } else XV_CANARY("dtor.deleted");
-    } else XV_OBL("hpscan.dtor.hands_over_all", npool[j].deleted == 0 && o == 0);
+      XV_OBL("hpscan.dtor.hands_over_all", (npool(j).deleted == 1 && o == 0) || (npool(j).deleted == 0 && o == 1));
+      XV_OBL(OBL_SPARES, !PROTECTED(j) || npool(j).deleted == 0);
+      XV_OBL("hpscan.skips_inactive", PROTECTED(j) || npool(j).deleted == 1);
+      if (npool(j).deleted == 0) { XV_OBL("hpscan.dtor.hands_over_all", g_ab_cas_ok_n == 1 && XV_IS_RELEASE(g_ab_cas_o)); XV_CANARY("dtor.handed_over"); } else XV_CANARY("dtor.deleted");
+    } else XV_OBL("hpscan.dtor.hands_over_all", npool(j).deleted == 0 && o == 0);
   } else {
     /* nothing retired: nothing scanned, the global abandoned list is left alone */
     XV_OBL("hpscan.dtor.hands_over_all", g_deletes == 0 && g_ab_xchg_n == 0 && g_ab_cas_ok_n == 0 && (is_adopted(j) ? o == 1 : o == 0) && len == in_na);
@@ -357,9 +369,9 @@ void h_dtor(void) {
   }
   /* C17: the record is released for reuse (release store making it free), the active-slot count is given back */
   if (had_cb) {
-    XV_OBL("hpscan.dtor.releases_record", epool[in_cb].state == ES_free && g_state_store_n == 1 && g_state_store_k == (int)in_cb && XV_IS_RELEASE(g_state_store_o));
+    XV_OBL("hpscan.dtor.releases_record", epool(in_cb).state == ES_free && g_state_store_n == 1 && g_state_store_k == (int)in_cb && XV_IS_RELEASE(g_state_store_o));
     XV_OBL("hpscan.dtor.releases_record", g_cnt_sub_n == 1 && number_of_active_hps == cnt0 - XV_K);
-    XV_OBL("hpscan.dtor.releases_record", ko == in_cb || epool[ko].state == in_state[ko]);
+    XV_OBL("hpscan.dtor.releases_record", ko == in_cb || epool(ko).state == in_state[ko]);
     XV_CANARY("dtor.released");
   } else { XV_OBL("hpscan.dtor.releases_record", g_state_store_n == 0 && g_cnt_sub_n == 0 && number_of_active_hps == cnt0); XV_CANARY("dtor.no_record"); }
 }
